@@ -175,6 +175,7 @@ class Observer:
                 o.was_cached = bool(job.was_cached)
                 if kind == "resolve":
                     o.result_hash = reg.get_hash(x)
+                    o.result_repr = repr(x)
                 else:
                     o.error = (type(x).__name__, str(x))
                 # model events: a collapsed job carries its twin's hash from the moment the twin settled
@@ -320,7 +321,24 @@ def check_db(runs, db, type_registry=None, strict_values=True):
                         if (n["task_hash"], n["args_hash"]) != (o.task_hash, o.args_hash):
                             add("replay:other-call", f"replayed job {o.n} adopted the node of another call")
                         if n["value_hash"] != o.result_hash:
-                            add("replay:other-result", f"replayed job {o.n} returned a value that is not the node's result")
+                            # the replayed value is the deserialised record: if re-hashing the recorded row gives the
+                            # hash of what the job returned, this is the value-key defect (pickle identity), not a
+                            # wrong node
+                            same = False
+                            v = values.get(n["value_hash"])
+                            if v is not None and type_registry is not None:
+                                try:
+                                    back = type_registry.deserialize(v["type"], v["value"])
+                                    same = (type_registry.get_hash(back) == o.result_hash
+                                            or repr(back) == getattr(o, "result_repr", None))
+                                except Exception:
+                                    same = False
+                            if same:
+                                add("value:key:pickle-identity-sharing",
+                                    f"replayed job {o.n} returned the deserialised result of node {h[:8]}, which hashes to "
+                                    f"{o.result_hash[:8]} instead of its key {n['value_hash'][:8]}")
+                            else:
+                                add("replay:other-result", f"replayed job {o.n} returned a value that is not the node's result")
                 continue
             ch = []
             for cid, hc in o.children_at_fin:
